@@ -3,6 +3,7 @@ module verifharness
 go 1.26.4
 
 require (
+	github.com/hashicorp/yamux v0.1.2
 	github.com/temporalio/s2s-proxy v0.0.0
 	go.temporal.io/api v1.62.8
 	go.temporal.io/server v1.31.2
@@ -39,7 +40,6 @@ require (
 	github.com/hashicorp/go-sockaddr v1.0.0 // indirect
 	github.com/hashicorp/golang-lru v0.5.0 // indirect
 	github.com/hashicorp/memberlist v0.5.1 // indirect
-	github.com/hashicorp/yamux v0.1.2 // indirect
 	github.com/keilerkonzept/visit v1.1.1 // indirect
 	github.com/miekg/dns v1.1.57 // indirect
 	github.com/mitchellh/mapstructure v1.5.0 // indirect
